@@ -12,6 +12,7 @@ import DimModel.Proofs.C14
 import DimModel.Proofs.C14Ops
 import DimModel.Proofs.C14Ops2
 import DimModel.Proofs.C14Ops3
+import DimModel.Proofs.C14Take
 namespace DimModel
 open Lib
 
